@@ -33,7 +33,7 @@ m = {
    "guard": "--cfg pumpkin_verif",
    "enable": "RUSTFLAGS from /verif/harness/.cargo/config.toml ([build] rustflags = [\"--cfg\", \"pumpkin_verif\"]); the harness depends on /repo/pumpkin-solver by path, so every check rebuilds it with the hooks compiled in (they stay inert until verif_hooks::enable is called)",
    "baseline_off_cmd": "cd /repo && (cargo nextest run --workspace --no-fail-fast --offline || cargo test --workspace --no-fail-fast --offline)",
-   "source_commits": subprocess.run("cd /repo && git log --format=%h --grep='verif hook' -i", shell=True, capture_output=True, text=True).stdout.split(),
+   "source_commits": subprocess.run("cd /repo && git log --format=%h -i -E --grep='verif(ication)? hooks'", shell=True, capture_output=True, text=True).stdout.split(),
    "add_only": True,
  },
  "engines": [
